@@ -183,24 +183,24 @@ theorem get_strAt (st : MState) (now : Int) (b : Bytes) (h : StrAt k st b) :
 
 /-! ### SET -/
 
-/-- after `writeKey … (some strNil)` on a missing key or a live hot string: the record is live,
+/-- after `writeKey … (some (.str []))` on a missing key or a live hot string: the record is live,
     holds a string, and nothing was signalled -/
 theorem writeKey_for_set (st : MState) (now : Int) (h : getMeta st k = none ∨ ∃ b, StrAt k st b) :
-    ∃ m, getMeta (writeKey st now k (some .strNil)).1 k = some m ∧ m.isOk = true ∧
-      (m.value = some .strNil ∨ ∃ b, m.value = some (.str b)) ∧
-      (writeKey st now k (some .strNil)).1.signalled = st.signalled ∧
-      (writeKey st now k (some .strNil)).1.flushed = st.flushed := by
+    ∃ m, getMeta (writeKey st now k (some (.str []))).1 k = some m ∧ m.isOk = true ∧
+      (∃ b, m.value = some (.str b)) ∧
+      (writeKey st now k (some (.str []))).1.signalled = st.signalled ∧
+      (writeKey st now k (some (.str []))).1.flushed = st.flushed := by
   rcases h with hm | ⟨b, m, hm, hok, he, hv⟩
   · simp only [getMeta] at hm
     simp only [writeKey, getMeta, hm, newKeyWith, fresh]
-    refine ⟨_, getMeta_putMeta_same _ _ _, ?_, Or.inl rfl, rfl, rfl⟩
+    refine ⟨_, getMeta_putMeta_same _ _ _, ?_, ⟨[], rfl⟩, rfl, rfl⟩
     simp [Meta.isOk, Meta.markModified, Meta.setValue]
   · have hexp : ({ m with count := m.count + 1 } : Meta).expired now = false := by simp [Meta.expired, he]
     have hok' : ({ m with count := m.count + 1 } : Meta).isOk = true := hok
     have hv' : ({ m with count := m.count + 1 } : Meta).value.isSome = true := by simp [hv]
     unfold writeKey
     simp only [hm, hok', hexp, if_true, hv', Bool.false_eq_true, if_false]
-    refine ⟨_, getMeta_putMeta_same _ _ _, hok, Or.inr ⟨b, hv⟩, ?_, ?_⟩
+    refine ⟨_, getMeta_putMeta_same _ _ _, hok, ⟨b, hv⟩, ?_, ?_⟩
     · simp only [putMeta, lockW]; split
       · rfl
       · split <;> rfl
@@ -216,13 +216,12 @@ theorem set_counter (st : MState) (now : Int) (v : Bytes) (h : getMeta st k = no
     (Api.set st now k v false).1.flushed = st.flushed := by
   obtain ⟨m, h1, hok, hval, h3, h4⟩ := writeKey_for_set k st now h
   unfold Api.set
-  generalize writeKey st now k (some Val.strNil) = r at h1 h3 h4
+  generalize writeKey st now k (some (Val.str [])) = r at h1 h3 h4
   obtain ⟨s1, ok⟩ := r
   simp only at h1 h3 h4
   have hs : ∃ x, Api.asStr s1 k = some x := by
-    rcases hval with hv | ⟨b, hv⟩
-    · exact ⟨none, by simp [Api.asStr, valOf, h1, hv]⟩
-    · exact ⟨some b, by simp [Api.asStr, valOf, h1, hv]⟩
+    obtain ⟨b, hv⟩ := hval
+    exact ⟨some b, by simp [Api.asStr, valOf, h1, hv]⟩
   obtain ⟨x, hx⟩ := hs
   simp only [hx, Bool.not_false, if_true]
   obtain ⟨e1, e2, e3⟩ := emit_fields (signal (Api.setExp (Api.setVal s1 k (Val.str v)) k 0) k) (Api.opSet k v false)
